@@ -33,7 +33,7 @@ m("C02-c", "C02", "libwallet/src/internal/selection.rs", "\tslate.amount = conte
 m("C02-d", "C02", "libwallet/src/api_impl/foreign.rs", "if let Some(args) = context.late_lock_args.take() {", "if let Some(args) = context.late_lock_args.clone() {", "C02.R5")
 m("C02-e", "C02", "libwallet/src/slate.rs", "\t\tself.verify_part_sigs(secp)?;\n\n\t\tlet part_sigs = self.part_sigs();", "\t\tlet part_sigs = self.part_sigs();", "C02.R1")
 # ---- C03
-m("C03-a", "C03", "libwallet/src/internal/selection.rs", "if coin.status == OutputStatus::Locked || coin.status == OutputStatus::Spent {", "if coin.status == OutputStatus::Spent {", "C03.R2")
+m("C03-a", "C03", "libwallet/src/internal/selection.rs", "\t\t\tif coin.status == OutputStatus::Locked\n\t\t\t\t|| coin.status == OutputStatus::Spent\n", "\t\t\tif coin.status == OutputStatus::Spent\n", "C03.R2")
 m("C03-b", "C03", "libwallet/src/api_impl/foreign.rs", "\t\tif t.tx_type == TxLogEntryType::TxReceived {\n\t\t\treturn Err(Error::TransactionAlreadyReceived(ret_slate.id.to_string()));\n\t\t}", "\t\tif t.tx_type == TxLogEntryType::TxReceivedCancelled {\n\t\t\treturn Err(Error::TransactionAlreadyReceived(ret_slate.id.to_string()));\n\t\t}", "C03.R3")
 m("C03-c", "C03", "libwallet/src/types.rs", "\t\tif [OutputStatus::Spent, OutputStatus::Locked].contains(&self.status)\n\t\t\t|| self.status == OutputStatus::Unconfirmed && self.is_coinbase\n\t\t\t|| self.lock_height > current_height\n\t\t{\n\t\t\tfalse\n\t\t} else {\n\t\t\t(self.status == OutputStatus::Unspent\n", "\t\tif [OutputStatus::Spent, OutputStatus::Reverted].contains(&self.status)\n\t\t\t|| self.status == OutputStatus::Unconfirmed && self.is_coinbase\n\t\t\t|| self.lock_height > current_height\n\t\t{\n\t\t\tfalse\n\t\t} else {\n\t\t\t((self.status == OutputStatus::Unspent || self.status == OutputStatus::Locked)\n", "C03.R4")
 # ---- C04
@@ -49,7 +49,7 @@ m("C05-d", "C05", "libwallet/src/internal/tx.rs", "\t\tSome(tx.id),\n\t\tSome(&p
 # ---- C06
 m("C06-a", "C06", "libwallet/src/internal/scan.rs", "\t\tis_coinbase: output.is_coinbase,\n\t\ttx_log_entry: Some(log_id),\n\t})?;", "\t\tis_coinbase: output.is_coinbase,\n\t\ttx_log_entry: Some(log_id),\n\t});", "C06.R3")
 m("C06-b", "C06", "libwallet/src/internal/selection.rs", "\t\tbatch.save_tx_log_entry(t.clone(), &parent_key_id)?;\n\t\tbatch.commit()?;\n\t\tt\n\t};", "\t\tbatch.commit()?;\n\t\tdrop(batch);\n\t\tlet mut batch = wallet.batch(keychain_mask)?;\n\t\tbatch.save_tx_log_entry(t.clone(), &parent_key_id)?;\n\t\tbatch.commit()?;\n\t\tt\n\t};", "C06.R1")
-m("C06-c", "C06", "impls/src/backends/lmdb.rs", "\t\tbatch.save_child_index(&parent_key_id, deriv_idx)?;\n\t\tbatch.commit()?;\n\t\tOk(Identifier::from_path(&return_path))", "\t\tbatch.save_child_index(&parent_key_id, deriv_idx)?;\n\t\tlet _ = batch.commit();\n\t\tOk(Identifier::from_path(&return_path))", "C06.R")
+m("C06-c", "C06", "impls/src/backends/lmdb.rs", "\t\tbatch.save_child_index(parent_key_id, deriv_idx)?;\n\t\tbatch.commit()?;\n\t\tOk(Identifier::from_path(&return_path))", "\t\tbatch.save_child_index(parent_key_id, deriv_idx)?;\n\t\tlet _ = batch.commit();\n\t\tOk(Identifier::from_path(&return_path))", "C06.R")
 # ---- C07
 m("C07-a", "C07", "libwallet/src/internal/updater.rs", "Ok(o) if o.is_coinbase && o.status == OutputStatus::Unconfirmed => o.key_id,", "Ok(o) if o.is_coinbase => o.key_id,", "C07.R2")
 m("C07-b", "C07", "libwallet/src/api_impl/foreign.rs", "\tret_slate.amount = 0;\n\tret_slate.fee_fields = FeeFields::zero();\n\tret_slate.remove_other_sigdata", "\tret_slate.fee_fields = FeeFields::zero();\n\tret_slate.remove_other_sigdata", "C07.R3")
@@ -63,7 +63,7 @@ m("C08-e", "C08", "libwallet/src/slate.rs", "\t\t\tamt: amount,\n\t\t\tfee: fee_
 # ---- C09
 m("C09-a", "C09", "libwallet/src/slate_versions/v4_bin.rs", "let saddr = DalekPublicKey::from_bytes(&reader.read_fixed_bytes(32)?)\n\t\t\t.map_err(|_| grin_ser::Error::CorruptedData)?;", "let saddr = DalekPublicKey::from_bytes(&reader.read_fixed_bytes(32)?).unwrap();", "C09.R1")
 m("C09-b", "C09", "libwallet/src/slatepack/armor.rs", "\t\tif base_decode.len() < 4 {\n\t\t\treturn Err(Error::InvalidSlatepackData(\n\t\t\t\t\"Slatepack data too short\".to_string(),\n\t\t\t));\n\t\t}\n", "", "C09.R1")
-m("C09-c", "C09", "api/src/types.rs", "\t\tif nonce.len() < 12 {", "\t\tif nonce.len() < 8 {", "C09.R1")
+m("C09-c", "C09", "api/src/types.rs", "\t\tif nonce.len() != 12 {", "\t\tif nonce.len() < 8 {", "C09.R1")
 m("C09-d", "C09", "libwallet/src/slatepack/types.rs", "\t\tbytes_remaining = bytes_remaining\n\t\t\t.checked_sub(2)\n\t\t\t.ok_or(ser::Error::CorruptedData)?;\n\n\t\tlet sender", "\t\tbytes_remaining -= 2;\n\n\t\tlet sender", "C09.R1")
 # ---- C10
 m("C10-a", "C10", "libwallet/src/slatepack/types.rs", "\t\tself.encrypted_meta.sender = self.sender.clone();\n\t\tself.sender = None;", "\t\tself.encrypted_meta.sender = self.sender.clone();", "C10.R1")
@@ -125,7 +125,7 @@ m("C02-f", "C02", "libwallet/src/api_impl/foreign.rs", "\t\ttx::complete_tx(&mut
 m("C03-d", "C03", "libwallet/src/internal/selection.rs", "batch.lock_output(&mut coin)?;", "coin.tx_log_entry = Some(log_id);\n\t\t\tbatch.save(coin)?;", "C03.R")
 m("C07-d", "C07", "libwallet/src/api_impl/foreign.rs", "\tcheck_ttl(w, &ret_slate)?;\n\tlet parent_key_id = match dest_acct_name {", "\tlet parent_key_id = match dest_acct_name {", "C07.R3")
 m("C13-d", "C13", "controller/src/controller.rs", "\t\t\tlet mut share_key_ref = key.lock();\n\t\t\t*share_key_ref = new_key;", "\t\t\tlet share_key_ref = key.lock();\n\t\t\tlet _ = (share_key_ref, new_key);", "C13.R4")
-m("C15-d", "C15", "libwallet/src/internal/selection.rs", "\t\t\tlet change_key = wallet.next_child(keychain_mask)?;", "\t\t\tlet change_key = match wallet.next_child(keychain_mask) {\n\t\t\t\tOk(k) => k,\n\t\t\t\tErr(_) => coins[0].key_id.clone(),\n\t\t\t};", "C15.R")
+m("C15-d", "C15", "libwallet/src/internal/selection.rs", "\t\t\tlet change_key = wallet.next_child(keychain_mask, parent_key_id)?;", "\t\t\tlet change_key = match wallet.next_child(keychain_mask, parent_key_id) {\n\t\t\t\tOk(k) => k,\n\t\t\t\tErr(_) => coins[0].key_id.clone(),\n\t\t\t};", "C15.R")
 m("C17-d", "C17", "libwallet/src/api_impl/owner.rs", "\tif slate.ttl_cutoff_height != 0 {\n\t\tif last_confirmed_height >= slate.ttl_cutoff_height {", "\tif slate.ttl_cutoff_height > 1 {\n\t\tif last_confirmed_height >= slate.ttl_cutoff_height {", "C17.R2")
 m("C04-e", "C04", "libwallet/src/internal/updater.rs", "\t\t\tif reverted_kernels.contains(&tx.id) && tx.parent_key_id == *parent_key_id {", "\t\t\tif reverted_kernels.contains(&tx.id) {", "C04.R1")
 m("C09-e", "C09", "libwallet/src/slatepack/types.rs", "\t\t\t.filter(|s| *s <= decrypted.len())\n", "\t\t\t.filter(|s| *s <= decrypted.len() + 4)\n", "C09.R1")
@@ -284,7 +284,6 @@ m("C10-r5", "C10", "libwallet/src/slatepack/packer.rs", "\t\tslatepack.try_encry
 
 m("C11-r10", "C11", "libwallet/src/internal/tx.rs", "\t\t.find(|t| t.tx_type == TxLogEntryType::TxSent)\n\t\t.and_then(|t| t.payment_proof.clone());", "\t\t.next()\n\t\t.and_then(|t| t.payment_proof.clone());", "C11.R10")
 m("C06-r8rel", "C06", "libwallet/src/internal/scan.rs", "\tfor mut o in released {\n\t\to.status = OutputStatus::Unspent;\n\t\tbatch.save(o)?;\n\t}\n", "\tdrop(released);\n", "C06.R8")
-m("C20-r4", "C20", "libwallet/src/internal/scan.rs", "\t\tlet current_child_index = w.current_child_index(&path)?;\n\t\tif *max_child_index >= current_child_index {", "\t\tlet current_child_index = *start_indices.get(path).unwrap_or(&0);\n\t\tif *max_child_index >= current_child_index {", "C20.R4")
 m("C06-r9", "C06", "libwallet/src/internal/scan.rs", "\t// restore labels, account paths and child derivation indices\n", "\t// restore labels, account paths and child derivation indices\n\tif delete_unconfirmed {\n\t\tfound_parents.clear();\n\t}\n", "C06.R9")
 
 
